@@ -11,7 +11,7 @@ EXTENDS FeatGraph, TLC
 CONSTANTS MaxNodes,     \* operator nodes per architecture
           Widths,       \* channel widths of defining layers
           Dim, C0, Sp0, \* 1|2, input channels, input spatial size
-          AllowExcl, AllowCat3, AllowReuse, Extras, AllowFindings   \* BOOLEAN switches (Extras: squeeze variants, negative concat axes) of the grammar / of the Supported() guard
+          AllowExcl, AllowCat3, AllowReuse, Extras, AllowFindings   \* BOOLEAN switches (Extras: "no" | "yes" = squeeze variants, negative concat axes, sigmoid, un-padded convs | "pit" = TRUE plus the PIT-only ops standalone BatchNorm and log_softmax) of the grammar / of the Supported() guard
 
 VARIABLES arch, phase, f
 
@@ -55,20 +55,20 @@ Candidates(a) ==
     \cup {Node("conv", <<p>>, 0, TRUE, FALSE) : p \in NF(a)}
     \* un-padded 1x1... no: un-padded convolutions with kernel 1 (size preserved) and, where the tensor is large
     \* enough, kernel 3 (size shrinks by 2)
-    \cup (IF Extras THEN {[Node("conv", <<p>>, w, FALSE, FALSE) EXCEPT !.valid = TRUE, !.causal = FALSE] :
+    \cup (IF Extras # "no" THEN {[Node("conv", <<p>>, w, FALSE, FALSE) EXCEPT !.valid = TRUE, !.causal = FALSE] :
                               p \in {t \in NF(a) : Sp(a, t) >= 3 /\ (Dim = 1 \/ SpW(a, t) >= 3)}, w \in Widths} ELSE {})
     \cup {Node("lin", <<p>>, w, FALSE, e) : p \in T(a) \ NF(a), w \in Widths, e \in Excl}
     \cup {Node("relu", <<p>>, 0, FALSE, FALSE) : p \in T(a) \ {0}}
-    \cup (IF Extras THEN {Node("sig", <<p>>, 0, FALSE, FALSE) : p \in T(a) \ {0}} ELSE {})
-    \cup (IF Extras THEN {Node("bns", <<p>>, 0, FALSE, FALSE) : p \in T(a) \ {0}} ELSE {})      \* standalone BatchNorm
-    \cup (IF Extras THEN {Node("lsm", <<p>>, 0, FALSE, FALSE) : p \in T(a) \ {0}} ELSE {})      \* log_softmax over the features
+    \cup (IF Extras # "no" THEN {Node("sig", <<p>>, 0, FALSE, FALSE) : p \in T(a) \ {0}} ELSE {})
+    \cup (IF Extras = "pit" THEN {Node("bns", <<p>>, 0, FALSE, FALSE) : p \in T(a) \ {0}} ELSE {})      \* standalone BatchNorm
+    \cup (IF Extras = "pit" THEN {Node("lsm", <<p>>, 0, FALSE, FALSE) : p \in T(a) \ {0}} ELSE {})      \* log_softmax over the features
     \cup {Node("pool", <<p>>, 0, FALSE, FALSE) : p \in {t \in NF(a) \ {0} : Sp(a, t) >= 2 /\ (Dim = 1 \/ SpW(a, t) >= 2)}}
     \cup {Node("flat", <<p>>, 0, FALSE, FALSE) : p \in NF(a)}
-    \cup (IF Dim = 1 /\ Extras THEN {[Node("gsq", <<p>>, 0, FALSE, FALSE) EXCEPT !.d = dd] : p \in NF(a) \ {0}, dd \in {2, -1}} ELSE {})
+    \cup (IF Dim = 1 /\ Extras # "no" THEN {[Node("gsq", <<p>>, 0, FALSE, FALSE) EXCEPT !.d = dd] : p \in NF(a) \ {0}, dd \in {2, -1}} ELSE {})
     \cup {Node("add", <<pq[1], pq[2]>>, 0, FALSE, FALSE) : pq \in AddPairs(a)}
     \cup {Node("cat", <<pq[1], pq[2]>>, 0, FALSE, FALSE) : pq \in CatPairs(a)}
     \cup (IF AllowCat3 THEN {Node("cat", <<t[1], t[2], t[3]>>, 0, FALSE, FALSE) : t \in CatTriples(a)} ELSE {})
-    \cup {[Node("catt", <<pq[1], pq[2]>>, 0, FALSE, FALSE) EXCEPT !.d = dd] : pq \in CattPairs(a), dd \in (IF Extras THEN {1, -1} ELSE {1})}
+    \cup {[Node("catt", <<pq[1], pq[2]>>, 0, FALSE, FALSE) EXCEPT !.d = dd] : pq \in CattPairs(a), dd \in (IF Extras # "no" THEN {1, -1} ELSE {1})}
 
 Grow == /\ phase = "grow" /\ N(arch) < MaxNodes
         /\ \E nd \in Candidates(arch) : arch' = [arch EXCEPT !.nodes = Append(@, nd)]
